@@ -1,6 +1,7 @@
 """C06-B (bounded): the multiset of leaf clauses of the generated query equals the multiset predicted from the tree by a
 table written from the statement and the class documentation (field, value, kind, modifiers, zero_terms_query, _name, per
 field options); the result is plain JSON data; the same builder called twice and a fresh builder give identical results."""
+import copy
 import json
 import re
 
@@ -11,10 +12,28 @@ import es_ref as R
 from luqum import tree as T
 from luqum.elasticsearch import ElasticsearchQueryBuilder
 from luqum.exceptions import InconsistentQueryException
-from luqum.naming import auto_name, get_name
+from luqum.naming import auto_name, get_name, set_name
 from luqum.parser import parser
 
-WILD = re.compile(r"((?<=[^\\])[?*]|\\\\[?*]|^[?*])")
+
+
+def has_unescaped_wildcard(q):
+    """written from the statement ("unescaped * or ?"): a backslash escapes the character that follows it"""
+    i = 0
+    while i < len(q):
+        if q[i] == "\\":
+            i += 2
+            continue
+        if q[i] in "*?":
+            return True
+        i += 1
+    return False
+
+
+def odd_backslashes_before_wildcard(q):
+    """known finding D15: three or more (an odd number of) backslashes directly in front of * or ?"""
+    return bool(re.search(r"(?<!\\)(\\\\)+\\[*?]", q))
+
 
 CONFIGS = []
 for default in ("should", "must"):
@@ -27,7 +46,9 @@ for default in ("should", "must"):
 
 EXTRA = ["a*", "t:b?c", "*", "t:*", "n.x:*", "t:\\*", "\"p  q\\nr\"", "t:\"u v\"", "t:\"w*\"", "h~", "t:h~0.8", "\"i j\"~", "t:\"i j\"~2", "k^2.5",
          "(a b)^3", "t:[* TO 5]", "t:{1 TO *}", "t:[* TO *]", "t:[\"a b\" TO c]", "t:x^2~", "+t:y", "-t:z", "NOT t:y", "t:(y z)", "t:(y AND z)",
-         "n:(x:d^2)", "n.x:\"e f\"~1", "o.x:g~1"]
+         "n:(x:d^2)", "n.x:\"e f\"~1", "o.x:g~1",
+         # escapes: quotes inside phrases (first / last character), escaped wildcards, escaped backslash before a real wildcard
+         "t:\"he said \\\"hello\\\"\"", "\"\\\"q\\\" x\"", "t:\"a\\\"\"", "t:C\\:\\\\*", "t:x\\\\?y", "t:x\\*y", "t:x\\\\\\*", "n.x:v\\\\*", "t:\\?", "t:\\\\"]
 
 
 def queries(max_leaves):
@@ -128,7 +149,7 @@ def predict(t, cfgd, named):
                 clause["exists"]["_name"] = name
             out.append(json.dumps(clause, sort_keys=True))
             return
-        wild = bool(WILD.search(q))
+        wild = has_unescaped_wildcard(q)
         if ap:
             method = "fuzzy"
             if wild:
@@ -221,20 +242,46 @@ def plain(x):
     return type(x) in (str, float, int, bool, type(None))
 
 
+def _all_nodes(n):
+    yield n
+    for c in n.children:
+        yield from _all_nodes(c)
+
+
+def partial_names(t, how):
+    """names on part of the tree only (auto_name names every operand): the first / the last operand of every operation, or only the
+    non-leaf constructs (groups, field groups, fields, boosts, fuzzy / proximity)"""
+    k = [0]
+
+    def nm(x):
+        set_name(x, "p%d" % k[0])
+        k[0] += 1
+    for x in list(_all_nodes(t)):
+        if how == "containers":
+            if type(x).__name__ in ("Group", "FieldGroup", "SearchField", "Boost", "Fuzzy", "Proximity") and x is not t:
+                nm(x)
+        elif isinstance(x, T.BaseOperation) and x.operands:
+            nm(x.operands[0] if how == "first" else x.operands[-1])
+
+
 def check(item):
     q, ci = item
     cfgd = CONFIGS[ci]
     try:
-        parser.parse(q)
+        base = parser.parse(q)
     except Exception:  # noqa: BLE001
         return 0, []
     fails = []
     n = 0
-    for kind, t in es_corpus.trees_for(q):
-        for named in (False, True):
+    d15 = any(odd_backslashes_before_wildcard(x.value) for x in _all_nodes(base) if type(x).__name__ == "Word")
+    for kind, t0 in es_corpus.trees_for(q):
+        for named in ((False, True, "first", "last", "containers") if ci % PARTIAL_EVERY == 0 else (False, True)):
             n += 1
-            if named:
+            t = copy.deepcopy(t0) if named else t0
+            if named is True:
                 auto_name(t)
+            elif named:
+                partial_names(t, named)
             b = ElasticsearchQueryBuilder(**cfgd)
             try:
                 js = b(t)
@@ -252,7 +299,7 @@ def check(item):
             if has_indirect_boost(t):
                 exp = sorted(json.dumps(json.loads(x), sort_keys=True) for x in leaves_of_strings(exp))
             if got != exp:
-                fails.append({"input": q, "tree": kind, "config": ci, "named": named, "signature": "leaves",
+                fails.append({"input": q, "tree": kind, "config": ci, "named": named, "signature": "leaves", "odd_backslashes_before_wildcard": d15,
                               "observation": "leaf clauses %s, expected %s (config %r)" % (
                                   [x for x in got if x not in exp][:3], [x for x in exp if x not in got][:3], {k: v for k, v in cfgd.items() if v})})
             if not plain(js):
@@ -265,8 +312,13 @@ def check(item):
     return n, fails[:2]
 
 
+PARTIAL_EVERY = 1
+
+
 def main():
+    global PARTIAL_EVERY
     p = read_payload()
+    PARTIAL_EVERY = p.get("partial_every", 1)
     qs = queries(p["max_leaves"])
     items = [(q, ci) for q in qs for ci in range(len(CONFIGS))]
     res = pmap(check, items)
@@ -275,7 +327,7 @@ def main():
     emit({"ok": not rest, "evaluations": sum(r[0] for r in res), "distinct_nontrivial": len(items),
           "rule": "%d queries (C05 corpus up to 2 leaves + wildcard / exists / phrase / fuzzy / proximity / boost / open range / named "
                   "variants) x %d configurations (default operator x nested x not-analysed sets x field options x match_word_as_phrase), "
-                  "unnamed and auto-named; distinct = pairs" % (len(qs), len(CONFIGS)),
+                  "unnamed, auto-named and three partial namings (first / last operand of each operation, containers only) on every %d-th configuration; distinct = pairs" % (len(qs), len(CONFIGS), PARTIAL_EVERY),
           "bound": "<= %d leaves per query" % p["max_leaves"], "samples": [{"query": "t:\"u v\"~2", "leaves": leaves_of(ElasticsearchQueryBuilder()(parser.parse("t:\"u v\"~2")))}],
           "failures": rest[:40], "known": hit, "known_covered": len(failures) - len(rest)})
 
